@@ -389,16 +389,25 @@ func (e *Env) autoRangeInvariant(fr *Frame, st *State, b *ssa.BasicBlock, l *loo
 		if !ok {
 			continue
 		}
-		if len(ph.Edges) != 2 {
-			continue
+		var bo *ssa.BinOp
+		okShape := len(ph.Edges) >= 2
+		nConst := 0
+		for _, ed := range ph.Edges {
+			if c, isC := ed.(*ssa.Const); isC {
+				if c.Value == nil || c.Int64() != -1 {
+					okShape = false
+				}
+				nConst++
+				continue
+			}
+			b2, isB := ed.(*ssa.BinOp)
+			if !isB || b2.X != ph || (bo != nil && bo != b2) {
+				okShape = false
+				break
+			}
+			bo = b2
 		}
-		c, ok := ph.Edges[0].(*ssa.Const)
-		if !ok || c.Value == nil || c.Int64() != -1 {
-			continue
-		}
-		// the increment must be phi + 1
-		bo, ok := ph.Edges[1].(*ssa.BinOp)
-		if !ok || bo.X != ph {
+		if !okShape || nConst != 1 || bo == nil {
 			continue
 		}
 		// find the comparison "inc < len" guarding the body
